@@ -50,11 +50,11 @@ func Ldexp(frac Decimal, exp int) Decimal {
 		return frac
 	}
 
-	if exp < minUnbiasedExponent {
+	if exp < -(maxBiasedExponent + maxDigits + 2) {
 		return zero(frac.Signbit())
 	}
 
-	if exp > maxUnbiasedExponent+39 {
+	if exp > maxBiasedExponent+maxDigits {
 		return inf(frac.Signbit())
 	}
 
